@@ -30,9 +30,10 @@ pub fn spec() -> CheckSpec {
     CheckSpec {
         id: "C04",
         level: "exploration",
-        rule: "proptest: (history plan with forks, runway timestamps, 20-34 candidate transactions) over 4 chain specs (short fixed epochs / doubling epochs, proposal windows (2,10) (2,4) (1,2), cellbase maturity 3/5, 1, 1/2, 2/7 epoch, median over 37/5/11/3 blocks). Candidates: inputs from live / same-block parent / pooled parent / spent / side-branch-only / unknown cells, duplicates inside a tx and across txs of a block, cellbase cells around the maturity boundary; code deps, dep groups (valid, empty, malformed, no data, dead/unknown member, hiding an own or foreign input, 2048/2049 members); header deps on main / side chain / unknown / duplicated; output capacity at occupied +-1, outputs = inputs +-1; since over all flag combinations with values at threshold -1/0/+1 of the targeted block or pool position; always_success / always_failure locks and types. Oracle: own admissibility model evaluated for the exact position: probe block with a model-invalid tx is refused and leaves the tip unchanged, the block with all model-valid txs of the position is accepted (both on the reorged node and on the linearly fed node), pool verdicts (test_accept_tx / submit_local_tx under the documented TxVerifyEnv of the tx's status and the node's actual pool contents) agree with the model (soundness always, completeness for policy-neutral txs), fee equals inputs-outputs, and the two nodes agree on verdict, cycles and fee whenever their pools hold the same transactions. Non-trivial = a judged (tx, position) with a since value exactly at / one step below its threshold, a cellbase exactly at / one block before maturity, a dep group hiding an own or already spent input or expanding to exactly 2048, or a same-block parent on a node that reorged; distinct by (tx hash, position, features).",
+        rule: "proptest: (history plan with forks, runway timestamps, 20-34 candidate transactions) over 4 chain specs (short fixed epochs / doubling epochs, proposal windows (2,10) (2,4) (1,2), cellbase maturity 3/5, 1, 1/2, 2/7 epoch, median over 37/5/11/3 blocks). Candidates: inputs from live / same-block parent / pooled parent / spent / side-branch-only / unknown cells, duplicates inside a tx and across txs of a block, cellbase cells around the maturity boundary; code deps, dep groups (valid, empty, malformed, no data, dead/unknown member, hiding an own or foreign input, 2048/2049 members); header deps on main / side chain / unknown / duplicated; output capacity at occupied +-1, outputs = inputs +-1; since over all flag combinations with values at threshold -1/0/+1 of the targeted block or pool position; always_success / always_failure locks and types. Oracle: own admissibility model evaluated for the exact position: probe block with a model-invalid tx is refused and leaves the tip unchanged, the block with all model-valid txs of the position is accepted (both on the reorged node and on the linearly fed node), pool verdicts (test_accept_tx / submit_local_tx under the documented TxVerifyEnv of the tx's status and the node's actual pool contents) agree with the model (soundness always, completeness for policy-neutral txs), fee equals inputs-outputs, and the two nodes agree on verdict, cycles and fee whenever their pools hold the same transactions. Non-trivial = a judged (tx, position) with a since value exactly at / one step below its threshold, a cellbase exactly at / one block before maturity, a dep group hiding an own or already spent input or expanding to exactly 2048, or a same-block parent on a node that reorged; distinct by (tx hash, position, features). Family `dao` (own sub-property): the same case shape and oracle on the fake-DAO consensus (genesis rewritten so that the NervosDAO slot holds always_success: the type hash equals consensus.dao_type_hash, the verifiers' DAO special cases apply, the script always passes), history with deposits / phase-1 / phase-2 withdrawals, 10 prepared deposit cells and 14 prepared withdrawing cells (lock args of 0/1/2 bytes, recorded deposit blocks spread over the history) and candidates of three shapes: deposit, phase 1 (DAO-typed output with equal / other lock-args length, at the same or another index than the DAO input, optional ordinary input, DAO type with args, missing DAO code dep), phase 2 (header deps [D,W] / [W,D] / W missing / index out of range / no witness / malformed witness / 4-byte index / index in the lock field / names W itself / another lower block / a higher block); outputs total at maximum withdraw -1 / 0 / +1, at the input capacities and +1, an extra output at occupied capacity -1 / 0 / +1; starting_block_limiting_dao_withdrawing_lock at 0 / exactly the block that commits the prepared deposits / one block later / mid-history. Model rules (RFC 0023 + doc comments of CapacityVerifier, DaoScriptSizeVerifier, DaoCalculator; exact integer arithmetic on the model's own AR values): a withdrawing input is worth counted*AR_w/AR_d + occupied where W is the committing block of the cell (must be a header dep) and D the header dep named by the witness (must be lower than W), every other input its capacity; outputs total <= that sum (so outputs > input capacities is admissible only through withdrawing inputs); every output >= its occupied capacity, DAO inputs or not; reported fee = maximum withdraw - outputs; deposit -> withdrawing cell at the same index keeps the lock size once the deposit's block number >= the activation number. Non-trivial for the family = a judged (tx, position) with outputs at maximum withdraw -1/0/+1, outputs above the input capacities within the maximum, a lock-size difference on either side of the activation number or a deposit exactly at / one block before it, an output at / one below its occupied capacity next to a DAO input, or a named deposit header that differs from the recorded number.",
         assumptions: &[
-            "script outcomes are limited to the prepared set (always_success, always_failure, missing code cell); cycle limits and DAO rules are not generated",
+            "script outcomes are limited to the prepared set (always_success, always_failure, missing code cell); cycle limits are not generated",
+            "family dao runs on the fake-DAO consensus: what the NervosDAO script itself enforces (180-epoch lock period, phase-1 output equal to the deposit, recorded block number = named header) is out of scope; the model states what the node's verifiers enforce without the script (RFC 0023 arithmetic, header deps, witness index, lock size)",
             "pool side: fee-rate, RBF replacement, duplicates and relative since on a cell created by a pooled parent are policy / undecided by the statement: counted, not judged",
             "the pool's contents are taken from the node (get_all_ids) as part of the context; how the pool maintains them across reorgs is C11/C12",
             "epoch transitions used to build blocks come from Consensus::next_epoch_ext over the model's tree (arithmetic itself is C07)",
@@ -56,6 +57,14 @@ pub struct Case {
     /// keep[i] == 0 drops candidate i (shrinks towards dropping; generated as 1 in 99 of 100)
     #[serde(default)]
     pub keep: Vec<u8>,
+    /// family `dao`: fake-DAO consensus (the DAO slot holds always_success), NervosDAO operations in
+    /// the history, prepared deposit / withdrawing cells, DAO-shaped candidates
+    #[serde(default)]
+    pub dao: bool,
+    /// where `starting_block_limiting_dao_withdrawing_lock` lies: 0 block 0, 1 the block that commits
+    /// the prepared deposit cells, 2 one block later, 3 in the middle of the history
+    #[serde(default)]
+    pub dao_lock_mode: u8,
 }
 
 pub fn variant_cfg(variant: u8) -> SpecCfg {
@@ -125,11 +134,46 @@ pub fn case_strategy(max_blocks: usize, max_cands: usize) -> impl Strategy<Value
             runway_ts,
             cands,
             keep,
+            dao: false,
+            dao_lock_mode: 0,
         })
 }
 
-fn err_class(e: &str) -> &'static str {
-    const KEYS: [&str; 34] = [
+/// family `dao`: the same machinery on the fake-DAO consensus with NervosDAO-shaped candidates
+pub fn dao_case_strategy(max_blocks: usize, max_cands: usize) -> impl Strategy<Value = Case> {
+    let p = PlanParams {
+        min_blocks: 8,
+        max_blocks,
+        fork_pct: 30,
+        tx_rate: 60,
+        invalid_pct: 0,
+        uncle_pct: 6,
+        dao_pct: 45,
+    };
+    (
+        (0u8..4, any::<bool>(), prop_oneof![4 => Just(false), 1 => Just(true)], 0u8..4),
+        tree_plan_strategy(p),
+        proptest::collection::vec(0u8..6, 24),
+        proptest::collection::vec(dao_family_cand_strategy(), 20..=max_cands),
+        proptest::collection::vec(prop_oneof![1 => Just(0u8), 99 => Just(1u8)], max_cands),
+    )
+        .prop_map(|((variant, round_ts, rbf, dao_lock_mode), plan, runway_ts, cands, keep)| Case {
+            variant,
+            round_ts,
+            rbf,
+            big_groups: false,
+            plan,
+            runway_ts,
+            cands,
+            keep,
+            dao: true,
+            dao_lock_mode,
+        })
+}
+
+pub fn err_class(e: &str) -> &'static str {
+    const KEYS: [&str; 35] = [
+        "lock script size of deposit cell",
         "CellbaseImmaturity",
         "Immature",
         "InvalidSince",
@@ -506,13 +550,14 @@ fn pool_offer(node: &Node, tx: &TransactionView, submit: bool) -> Result<PoolRes
     }
 }
 
-fn tx_brief(tx: &TransactionView) -> Value {
+pub fn tx_brief(tx: &TransactionView) -> Value {
     json!({
         "hash": format!("{:#x}", tx.hash()),
         "inputs": tx.inputs().into_iter().map(|i| { let s: u64 = i.since().into(); format!("{}#{} since={:#018x}", hex(&i.previous_output().tx_hash().as_slice()[..6]), { let x: u32 = i.previous_output().index().into(); x }, s) }).collect::<Vec<_>>(),
         "cell_deps": tx.cell_deps_iter().map(|d| format!("{}#{} {}", hex(&d.out_point().tx_hash().as_slice()[..6]), { let x: u32 = d.out_point().index().into(); x }, if d.dep_type() == ckb_types::core::DepType::DepGroup.into() { "group" } else { "code" })).collect::<Vec<_>>(),
         "header_deps": tx.header_deps_iter().map(|h| hex(&h.as_slice()[..6])).collect::<Vec<_>>(),
-        "outputs": tx.outputs().into_iter().map(|o| cap(&o)).collect::<Vec<_>>(),
+        "outputs": tx.outputs_with_data_iter().map(|(o, d)| format!("{}{}{}", cap(&o), if o.type_().to_opt().is_some() { " typed" } else { "" }, if d.is_empty() { String::new() } else { format!(" data={}", hex(&d[..d.len().min(8)])) })).collect::<Vec<_>>(),
+        "witnesses": tx.witnesses().into_iter().map(|w| hex(&w.raw_data()[..w.raw_data().len().min(40)])).collect::<Vec<_>>(),
     })
 }
 
@@ -573,12 +618,39 @@ fn judge_pool(
     Ok(())
 }
 
+fn is_dao_boundary_feat(f: &str) -> bool {
+    matches!(
+        f,
+        "dao-withdraw-one-over-maximum"
+            | "dao-withdraw-exactly-maximum"
+            | "dao-withdraw-one-below-maximum"
+            | "dao-outputs-above-input-capacities-within-maximum"
+            | "dao-lock-size-differs-before-activation"
+            | "dao-lock-size-differs-after-activation"
+            | "dao-lock-rule-deposit-exactly-at-activation"
+            | "dao-lock-rule-deposit-one-block-before-activation"
+            | "dao-input-next-to-output-one-below-occupied"
+            | "dao-input-next-to-output-exactly-occupied"
+            | "dao-named-deposit-header-differs-from-recorded-number"
+    )
+}
+
 fn is_boundary_feat(f: &str) -> bool {
-    f.contains("exact") && (f.starts_with("since") || f.starts_with("maturity") || f.starts_with("dep-expansion"))
+    is_dao_boundary_feat(f)
+        || f.contains("exact") && (f.starts_with("since") || f.starts_with("maturity") || f.starts_with("dep-expansion"))
         || f.ends_with("one-short")
         || f == "maturity-one-block-short"
         || f == "dep-group-hides-own-input"
         || f == "dep-group-hides-spent-in-overlay"
+}
+
+/// the `tx-admission` family leaves two of the sample slots to the `dao` family, which samples
+/// only (tx, position) pairs with a NervosDAO boundary feature
+fn sample_ok(st: &Stats, dao_family: bool, feats: &[String]) -> bool {
+    if !st.want_sample() {
+        return false;
+    }
+    if dao_family { feats.iter().any(|f| is_dao_boundary_feat(f)) } else { st.samples.len() + 2 < MAX_SAMPLES }
 }
 
 fn note_features(st: &mut Stats, side: &str, ev: &Eval, c: &Cand, step: usize, reorged: bool, same_block_parent: bool) {
@@ -600,10 +672,11 @@ fn note_features(st: &mut Stats, side: &str, ev: &Eval, c: &Cand, step: usize, r
 fn prop(case: &Case, st: &mut Stats, tol: Tolerate) -> Verdict {
     install_panic_recorder();
     clear_panics();
-    let cfg = variant_cfg(case.variant);
-    let env = build_env(&cfg);
+    let mut cfg = variant_cfg(case.variant);
+    cfg.fake_dao = case.dao;
+    let mut env = build_env(&cfg);
     let (close, far) = cfg.proposal_window;
-    st.label(&format!("spec:variant-{}", case.variant % 4));
+    st.label(&format!("spec:variant-{}{}", case.variant % 4, if case.dao { "-fake-dao" } else { "" }));
     // --- history
     let mut plan = case.plan.clone();
     for s in plan.steps.iter_mut() {
@@ -623,6 +696,27 @@ fn prop(case: &Case, st: &mut Stats, tol: Tolerate) -> Verdict {
     for h in &tree.order {
         if tree.get(h).td > tree.get(&t0).td {
             t0 = h.clone();
+        }
+    }
+    // family `dao`: place the activation number of the lock-size rule relative to the block that
+    // will commit the prepared deposit cells (the parameter is not part of the genesis block)
+    let mut dao_lock_start = env.consensus.starting_block_limiting_dao_withdrawing_lock();
+    if case.dao {
+        let w_prep = tree.get(&t0).number + 1 + close;
+        dao_lock_start = match case.dao_lock_mode % 4 {
+            0 => 0,
+            1 => w_prep,
+            2 => w_prep + 1,
+            _ => tree.get(&t0).number / 2,
+        };
+        let mut c = (*env.consensus).clone();
+        c.starting_block_limiting_dao_withdrawing_lock = dao_lock_start;
+        env.consensus = std::sync::Arc::new(c);
+        st.label(&format!("dao:lock-rule-start-mode-{}", case.dao_lock_mode % 4));
+        for (k, v) in &built.labels {
+            if k.starts_with("tx:dao") {
+                st.label_n(&format!("history:{k}"), *v);
+            }
         }
     }
     // Node A receives side-branch blocks as early as their parents allow, so that it follows side
@@ -678,7 +772,12 @@ fn prop(case: &Case, st: &mut Stats, tol: Tolerate) -> Verdict {
     let mut known: BTreeMap<[u8; 32], TransactionView> = built.txs.values().map(|t| (h32(&t.hash()), t.clone())).collect();
 
     // --- nodes
-    let min_fee_rate = 1000u64;
+    // family `dao`, odd variants: no minimum fee rate, so that outputs exactly at / one below the
+    // maximum withdraw (fee 0 / 1) are policy-neutral and the pool side is judged for completeness too
+    let min_fee_rate = if case.dao && case.variant % 2 == 1 { 0u64 } else { 1000u64 };
+    if case.dao {
+        st.label(if min_fee_rate == 0 { "dao:pool-without-min-fee-rate" } else { "dao:pool-min-fee-rate-1000" });
+    }
     let mk_node = || -> Result<Node, Violation> {
         // paths are left empty: the node driver points them into its own scratch directory
         let mut pc = ckb_app_config::TxPoolConfig::default();
@@ -725,8 +824,10 @@ fn prop(case: &Case, st: &mut Stats, tol: Tolerate) -> Verdict {
         as_hash: env.always_success_lock.code_hash(),
         af_hash: env.always_failure_lock.code_hash(),
         pool: false,
+        dao_type_hash: env.consensus.dao_type_hash(),
+        dao_lock_start,
     };
-    let params_pool = Params { pool: true, maturity: params_block.maturity, as_hash: params_block.as_hash.clone(), af_hash: params_block.af_hash.clone() };
+    let params_pool = Params { pool: true, ..params_block.clone() };
 
     // candidate slots: (create step, first probe step)
     let mut order: Vec<(usize, usize, usize)> = case
@@ -742,7 +843,10 @@ fn prop(case: &Case, st: &mut Stats, tol: Tolerate) -> Verdict {
         .collect();
     order.sort();
 
-    let prep = build_prep(&env, &tree, &t0, case.big_groups);
+    let prep = build_prep(&env, &tree, &t0, case.big_groups, case.dao);
+    if case.dao {
+        st.label(if prep.dao_deposits.is_empty() { "prep:no-dao-cells" } else { "prep:dao-cells" });
+    }
     if prep.txs.len() < 2 {
         st.label("prep:no-dep-groups");
     }
@@ -755,6 +859,7 @@ fn prop(case: &Case, st: &mut Stats, tol: Tolerate) -> Verdict {
 
     let mut cands: Vec<Cand> = vec![];
     let mut next_plain = 0usize;
+    let mut next_dao = (0usize, 0usize);
     let mut cur = t0.clone();
     let nodes: [(&str, &Node); 2] = [("A(reorged)", &node_a), ("B(linear)", &node_b)];
     let mut seen_hashes: BTreeSet<[u8; 32]> = BTreeSet::new();
@@ -785,12 +890,15 @@ fn prop(case: &Case, st: &mut Stats, tol: Tolerate) -> Verdict {
                     prep: &prep,
                     side_blocks: &side_blocks,
                     next_plain,
+                    next_dao,
+                    dao_lock_start,
                 };
                 let grp = (*create, *probe);
                 let wants_parent = spec.inputs.iter().any(|i| i.kind == 8);
                 let prev = if wants_parent { prev_valid_in_group.get(&grp).or(prev_in_group.get(&grp)) } else { prev_in_group.get(&grp) }.cloned();
                 let b = build_candidate(&mut g, spec, *probe, prev.as_ref().map(|p| &p.0), prev2_in_group.get(&grp).map(|p| &p.0));
                 next_plain = g.next_plain;
+                next_dao = g.next_dao;
                 let b = match b {
                     Some(b) => b,
                     None => {
@@ -925,7 +1033,7 @@ fn prop(case: &Case, st: &mut Stats, tol: Tolerate) -> Verdict {
                         st.label("pool:dry-run-accepted-child-of-pooled-parent");
                     }
                     note_features(st, "pool", &o.ev, c, r, reorged, o.parent_pooled);
-                    if st.want_sample() && r % 5 == 0 && o.ev.feats.iter().any(|f| is_boundary_feat(f)) {
+                    if sample_ok(st, case.dao, &o.ev.feats) && (case.dao || r % 5 == 0) && o.ev.feats.iter().any(|f| is_boundary_feat(f)) {
                         st.sample(|| {
                             json!({"side": "pool", "api": "test_accept_tx", "node": who, "variant": case.variant % 4, "tip": tipn, "pool_size": ctx.ids.len(),
                                 "model_failed": o.ev.failed, "not_judged": o.model.2, "features": o.ev.feats, "answer": format!("{:?}", o.res).chars().take(160).collect::<String>(), "tx": tx_brief(&c.tx)})
@@ -981,7 +1089,7 @@ fn prop(case: &Case, st: &mut Stats, tol: Tolerate) -> Verdict {
         let ts = next_ts(&tree, &cur, case.runway_ts[r % case.runway_ts.len()], case.round_ts);
         let slot = &sched[r];
         let benv = PosEnv { number: slot.number, epoch: slot.epoch, median: slot.median };
-        let binfo = CellInfo { number: slot.number, epoch: slot.epoch, ts, cellbase: false };
+        let binfo = CellInfo { number: slot.number, epoch: slot.epoch, ts, cellbase: false, hash: None };
         let mut base_spec = runway_spec(&env, ts);
         base_spec.proposals = proposals.clone();
         let mut accepted: Vec<TransactionView> = vec![];
@@ -1045,6 +1153,8 @@ fn prop(case: &Case, st: &mut Stats, tol: Tolerate) -> Verdict {
                 }
             }
             dao.u = (dao.u as u128 + added).saturating_sub(freed) as u64;
+            // NervosDAO interest the transaction claims (as far as it is defined) leaves S
+            dao.s = (dao.s as u128).saturating_sub(ev.interest) as u64;
             let probe: BlockView = mb0.block.as_advanced_builder().transaction(x.clone()).dao(dao.pack()).build();
             let mut verdicts = vec![];
             for (who, n) in nodes.iter() {
@@ -1071,7 +1181,12 @@ fn prop(case: &Case, st: &mut Stats, tol: Tolerate) -> Verdict {
                         }
                         // refused because of the transaction itself (error attributed to its index,
                         // or an out-point / header resolution error)?
-                        let about_tx = e.contains(&format!("BlockTransactionsError(index: {}", accepted.len() + 1)) || e.contains("OutPoint");
+                        // (a NervosDAO transaction whose maximum withdraw is undefined is refused by
+                        // the DAO-field calculation of the block, before the per-transaction verifiers)
+                        let about_tx = e.contains(&format!("BlockTransactionsError(index: {}", accepted.len() + 1))
+                            || e.contains("OutPoint")
+                            || cl == "lock script size of deposit cell"
+                            || (cl == "Dao" && ev.failed.iter().any(|f| f.starts_with("dao:")));
                         if vacuous_class(cl) && !about_tx {
                             vfail!(
                                 "harness:probe-refused-for-another-reason",
@@ -1102,7 +1217,7 @@ fn prop(case: &Case, st: &mut Stats, tol: Tolerate) -> Verdict {
                     tx_brief(x)
                 );
             }
-            if st.want_sample() && ev.feats.iter().any(|f| is_boundary_feat(f)) {
+            if sample_ok(st, case.dao, &ev.feats) && ev.feats.iter().any(|f| is_boundary_feat(f)) {
                 let cc = &cands[ci];
                 st.sample(|| {
                     json!({"side": "block", "variant": case.variant % 4, "position": slot.number, "epoch": [slot.epoch.n, slot.epoch.i, slot.epoch.l],
@@ -1153,7 +1268,7 @@ fn prop(case: &Case, st: &mut Stats, tol: Tolerate) -> Verdict {
         }
         if n_cand > 0 {
             st.label_n("block:valid-candidates-committed", n_cand as u64);
-            if st.want_sample() && r % 3 == 0 {
+            if sample_ok(st, case.dao, &[]) && !case.dao && r % 3 == 0 {
                 st.sample(|| json!({"side": "block", "variant": case.variant % 4, "position": slot.number, "accepted_block_with": accepted.iter().map(tx_brief).collect::<Vec<_>>()}));
             }
         }
@@ -1167,11 +1282,20 @@ fn prop(case: &Case, st: &mut Stats, tol: Tolerate) -> Verdict {
 
 fn run(ctx: &Ctx) {
     ctx.shrink_iters.set(100);
-    let cases = ctx.cases(300, 4500);
     let max_blocks = ctx.tier.pick(22, 40);
     let max_cands = ctx.tier.pick(34, 40);
     let tol = tolerate(ctx);
-    ctx.run_prop("tx-admission", cases, case_strategy(max_blocks, max_cands), |c, st| prop(c, st, tol));
+    // development aid: VERIF_ONLY_SUB=<sub name> runs one family only
+    let only = std::env::var("VERIF_ONLY_SUB").ok();
+    let want = |sub: &str| only.as_deref().map(|o| o == sub).unwrap_or(true);
+    if want("tx-admission") {
+        let cases = ctx.cases(300, 4500);
+        ctx.run_prop("tx-admission", cases, case_strategy(max_blocks, max_cands), |c, st| prop(c, st, tol));
+    }
+    if want("dao") {
+        let cases = ctx.cases(96, 1440);
+        ctx.run_prop("dao", cases, dao_case_strategy(max_blocks, max_cands), |c, st| prop(c, st, tol));
+    }
 }
 
 fn replay(ctx: &Ctx, _sub: &str, v: &Value) -> Verdict {
